@@ -639,8 +639,16 @@ macro_rules! lemma_f {
                 q2 = sorted[$nb / 2 - 1];
                 q3 = sorted[3 * $nb / 4 - 1];
             }
-            if let Some(bits) = $qbits {
-                kani::assume(q3 < (1u32 << bits));
+            if let Some(dom) = $qbits {
+                if dom == 100 {
+                    // structured wide domain: third quartile a power of two (division == shift)
+                    kani::assume(q3.is_power_of_two());
+                } else if dom == 101 {
+                    // third quartile = m << s with m < 16; integer mode only
+                    kani::assume(q3 != 0 && (q3 >> q3.trailing_zeros()) < 16 && pure_int);
+                } else {
+                    kani::assume(q3 < (1u32 << dom));
+                }
             }
             let expect = ref_gates(total, $nb, q3, nonzero, conservative, small, half, quarter);
             // finalize takes &self: nothing observable changed
@@ -688,17 +696,11 @@ macro_rules! lemma_f {
                         assert!(h.body().data()[k] == e);
                     }
                     if $check_q {
-                        let (e1, e2) = if pure_int {
-                            (
-                                (((q1 as u64 * 100) / q3 as u64) % 16) as u8,
-                                (((q2 as u64 * 100) / q3 as u64) % 16) as u8,
-                            )
-                        } else {
-                            (
-                                ref_qratio_f32(q1, q3),
-                                ref_qratio_f32(q2, q3),
-                            )
+                        let dom = match $qbits {
+                            Some(d) => d,
+                            None => 0,
                         };
+                        let (e1, e2) = (ref_qratio(q1, q3, pure_int, dom), ref_qratio(q2, q3, pure_int, dom));
                         assert!(h.qratios().q1ratio() == e1);
                         assert!(h.qratios().q2ratio() == e2);
                         assert!(h.qratios().value() == (e2 << 4 | e1));
@@ -709,6 +711,46 @@ macro_rules! lemma_f {
             }
         }
     };
+}
+
+/// u32 -> nearest f32 (ties to even), returned as the exact integer value it denotes.
+fn round_to_f32_int(n: u32) -> u64 {
+    if n < (1 << 24) {
+        return n as u64;
+    }
+    let sh = 8 - n.leading_zeros(); // number of low bits that do not fit in 24 significant bits
+    let lsb = 1u64 << sh;
+    let rem = n as u64 & (lsb - 1);
+    let base = n as u64 & !(lsb - 1);
+    let half = lsb >> 1;
+    if rem > half || (rem == half && (base & lsb) != 0) {
+        base + lsb
+    } else {
+        base
+    }
+}
+
+/// Reference Q ratio on the domain selected by `dom` (see lemma_f): written WITHOUT a second
+/// full-width divider where the domain allows (two dividers in one query are SAT-hard).
+fn ref_qratio(q: u32, q3: u32, pure_int: bool, dom: u32) -> u8 {
+    if dom == 100 {
+        let s = q3.trailing_zeros();
+        if pure_int {
+            (((q as u64 * 100) >> s) % 16) as u8
+        } else {
+            // legacy mode: 32-bit wrapping product, rounded to single precision, exact division
+            // by 2^s, truncation
+            ((round_to_f32_int(q.wrapping_mul(100)) >> s) % 16) as u8
+        }
+    } else if dom == 101 {
+        let s = q3.trailing_zeros();
+        let m = (q3 >> s) as u64;
+        ((((q as u64 * 100) >> s) / m) % 16) as u8
+    } else if pure_int {
+        (((q as u64 * 100) / q3 as u64) % 16) as u8
+    } else {
+        ref_qratio_f32(q, q3)
+    }
 }
 
 /// Legacy (TLSH <= 4.12.0) Q ratio: unsigned 32-bit product, single-precision division, truncation.
@@ -729,12 +771,16 @@ lemma_f!(f_normall_main, GNormalL, sym_normal_l, 128, 32, None::<u32>, false, 13
 lemma_f!(f_long_main, GLong, sym_long, 256, 64, None::<u32>, false, 260, 7, true);
 //@ h=f_longl_main props=C01,C10,C11,C15 cfgs=K1 tier=t t=2400 | funcs: inner::Generator<LongWithLongChecksum>::finalize_with_options | bound: as f_short_main with 256 counters, but the three quartiles are ANY q1<=q2<=q3 (superset of the real order statistics), 3-byte checksum | stubs: select_nth_unstable order-statistic model; FuzzyHashLengthEncoding::new contract
 lemma_f!(f_longl_main, GLongL, sym_long_l, 256, 64, None::<u32>, false, 260, 7, true);
-//@ h=f_short_q8 props=C01 cfgs=K1 tier=q t=1200 | funcs: inner::Generator<Short>::finalize_with_options (Q-ratio arithmetic, both modes) | bound: as f_short_main but third quartile < 2^8 (equivalence of two dividers is SAT-hard beyond ~10 bits); integer mode vs the u64 formula, legacy mode vs CBMC's IEEE-754 single-precision semantics of the reference formula | stubs: select_nth_unstable order-statistic model; FuzzyHashLengthEncoding::new contract | assume: q3 < 256
-lemma_f!(f_short_q8, GShort, sym_short, 48, 12, Some(8u32), true, 52, 0, false);
+//@ h=f_short_q8 props=C01 cfgs=K1 tier=q t=1200 | funcs: inner::Generator<Short>::finalize_with_options (Q-ratio arithmetic, both modes) | bound: all states with any q1<=q2<=q3<2^8 (equivalence of two full dividers is SAT-hard beyond ~10 bits); integer mode vs the u64 formula, legacy mode vs CBMC's IEEE-754 single-precision semantics of the reference formula | stubs: select_nth_unstable -> any ordered quartiles; FuzzyHashLengthEncoding::new contract | assume: q3 < 256
+lemma_f!(f_short_q8, GShort, sym_short, 48, 12, Some(8u32), true, 52, 0, true);
+//@ h=f_short_qp2 props=C01 cfgs=K1 tier=q t=1800 | funcs: inner::Generator<Short>::finalize_with_options (Q-ratio arithmetic at full width) | bound: any q1<=q2<=q3 with q3 a power of two up to 2^31 (counts >= 2^24 and >= 2^31 included): integer mode vs shift formula on the u64 product, legacy mode vs an integer-only model (32-bit wrapping product, round-to-nearest-even to 24 bits, exact division, truncation) | stubs: select_nth_unstable -> any ordered quartiles; FuzzyHashLengthEncoding::new contract | assume: q3 is a power of two
+lemma_f!(f_short_qp2, GShort, sym_short, 48, 12, Some(100u32), true, 52, 0, true);
+//@ h=f_short_qm16 props=C01 cfgs=K1 tier=t t=3600 | funcs: inner::Generator<Short>::finalize_with_options (integer Q-ratio arithmetic at full width) | bound: any q1<=q2<=q3 with q3 = m<<s, m<16; integer mode only | stubs: as f_short_qp2 | assume: q3 = m << s with m < 16, integer mode
+lemma_f!(f_short_qm16, GShort, sym_short, 48, 12, Some(101u32), true, 52, 0, true);
 //@ h=f_short_q10 props=C01 cfgs=K1 tier=t t=3000 | funcs: inner::Generator<Short>::finalize_with_options (Q-ratio arithmetic) | bound: third quartile < 2^10 | stubs: as f_short_q8 | assume: q3 < 1024
-lemma_f!(f_short_q10, GShort, sym_short, 48, 12, Some(10u32), true, 52, 0, false);
-//@ h=f_normal_q8 props=C01 cfgs=K1 tier=t t=2400 | funcs: inner::Generator<Normal>::finalize_with_options (Q-ratio arithmetic) | bound: third quartile < 2^8 | stubs: as f_short_q8 | assume: q3 < 256
-lemma_f!(f_normal_q8, GNormal, sym_normal, 128, 32, Some(8u32), true, 132, 0, true);
+lemma_f!(f_short_q10, GShort, sym_short, 48, 12, Some(10u32), true, 52, 0, true);
+//@ h=f_normal_qp2 props=C01 cfgs=K1 tier=t t=3000 | funcs: inner::Generator<Normal>::finalize_with_options (Q-ratio arithmetic at full width) | bound: q3 a power of two | stubs: as f_short_qp2 | assume: q3 is a power of two
+lemma_f!(f_normal_qp2, GNormal, sym_normal, 128, 32, Some(100u32), true, 132, 0, true);
 //@ h=f_long_q8 props=C01 cfgs=K1 tier=t t=3000 | funcs: inner::Generator<Long>::finalize_with_options (Q-ratio arithmetic) | bound: third quartile < 2^8 | stubs: as f_short_q8 | assume: q3 < 256
 lemma_f!(f_long_q8, GLong, sym_long, 256, 64, Some(8u32), true, 260, 0, true);
 
